@@ -5,6 +5,8 @@ import (
 	"os"
 	"sort"
 	"strings"
+
+	"golang.org/x/tools/go/ssa"
 )
 
 // debugExplore runs the bare explorer on a function and prints statistics.
@@ -71,4 +73,72 @@ func noIntFilter(k string) bool {
 		return false
 	}
 	return true
+}
+
+// discoverLocks prints, for every struct field of the module that is accessed at
+// least once while some mutex is held, how often it is accessed under which
+// lock and how often without any (development aid for building the frozen
+// guarded-by table of C37; Engler-style statistics, confirmed by reading).
+func discoverLocks(repo string) {
+	p, err := loadProg(repo, "amd64")
+	if err != nil {
+		fmt.Println(err)
+		os.Exit(3)
+	}
+	type stat struct {
+		under map[string]int
+		none  int
+		fns   map[string]bool
+	}
+	stats := map[string]*stat{}
+	for _, fn := range p.SrcFuncs() {
+		held := heldAt(fn, heldSet{}, nil)
+		for _, b := range fn.Blocks {
+			for _, ins := range b.Instrs {
+				var fa *ssa.FieldAddr
+				switch w := ins.(type) {
+				case *ssa.Store:
+					fa, _ = w.Addr.(*ssa.FieldAddr)
+				case *ssa.UnOp:
+					fa, _ = w.X.(*ssa.FieldAddr)
+				}
+				if fa == nil {
+					continue
+				}
+				if al, ok := fa.X.(*ssa.Alloc); ok && al.Parent() == fn {
+					continue
+				}
+				k := typeNameOf(fa.X) + "." + fieldName(fa.X.Type(), fa.Field)
+				s := stats[k]
+				if s == nil {
+					s = &stat{under: map[string]int{}, fns: map[string]bool{}}
+					stats[k] = s
+				}
+				h := held[ins]
+				if len(h) == 0 {
+					s.none++
+					s.fns[funcName(fn)] = true
+				}
+				for l := range h {
+					s.under[strings.TrimSuffix(l, ":r")]++
+				}
+			}
+		}
+	}
+	var ks []string
+	for k, s := range stats {
+		if len(s.under) > 0 {
+			ks = append(ks, k)
+		}
+	}
+	sort.Strings(ks)
+	for _, k := range ks {
+		s := stats[k]
+		var fl []string
+		for f := range s.fns {
+			fl = append(fl, f)
+		}
+		sort.Strings(fl)
+		fmt.Printf("%-45s under=%v none=%d %v\n", k, s.under, s.none, fl)
+	}
 }
